@@ -28,7 +28,64 @@ MCView == <<mode, hasE, hasS, callno, other, pc,
             IF pc = "s_recv" THEN sreq ELSE Fresh,
             sround, res, inv, first,
             IF pc = "c_got" THEN wres ELSE NoWire,
-            who, fpend, frun, fdone, orphan, outcome>>
+            who, fpend, frun, fdone, orphan, late, manual, outcome>>
+
+\* Cover configuration: one initial state; the first step (Setup) chooses the client, so that a path through
+\* the graph is a complete, self-contained behaviour.  Every disjunct is a named action (edge labels).
+CoverInit ==
+  /\ mode = "none" /\ hasE = FALSE /\ hasS = FALSE
+  /\ callno = 0 /\ other = FALSE /\ pc = "idle"
+  /\ params = Fresh /\ tries = 0 /\ shed = 0
+  /\ sreq = Fresh /\ sround = 0 /\ res = NoRes /\ inv = 0 /\ first = TRUE /\ wres = NoWire
+  /\ who = "none" /\ fpend = {} /\ frun = {} /\ fdone = NoneDone /\ orphan = {} /\ late = {}
+  /\ manual = 0 /\ outcome = NoOutcome
+Setup(m, e, s) ==
+  /\ mode = "none" /\ mode' = m /\ hasE' = e /\ hasS' = s
+  /\ UNCHANGED <<callno, other, pc, params, tries, shed, sreq, sround, res, inv, first, wres,
+                 who, fpend, frun, fdone, orphan, late, manual, outcome>>
+Ready == mode # "none"
+GAppCall(o) == Ready /\ AppCall(o)
+GAppRetry == Ready /\ AppRetry
+GCSend == Ready /\ CSend
+GSOther == Ready /\ SOther
+GSInvoke(t, R, s) == Ready /\ SInvoke(t, R, s)
+GSPost == Ready /\ SPost
+GSMw == Ready /\ SMw
+GFBegin(k) == Ready /\ FBegin(k)
+GFEnd(k, r) == Ready /\ FEnd(k, r)
+GFSkip(k) == Ready /\ FSkip(k)
+GFAbandon(k) == Ready /\ FAbandon(k)
+GOEnd(k) == Ready /\ OEnd(k)
+GFLate(k) == Ready /\ FLate(k)
+GLBegin(k) == Ready /\ LBegin(k)
+GLDrop(k) == Ready /\ LDrop(k)
+GFJoin == Ready /\ FJoin
+GCPass == Ready /\ CPass
+GCFinal == Ready /\ CFinal
+GCInput == Ready /\ CInput
+CoverNext ==
+  \/ \E m \in Modes, e \in BOOLEAN, s \in BOOLEAN : Setup(m, e, s)
+  \/ \E o \in Others : GAppCall(o)
+  \/ GAppRetry
+  \/ GCSend
+  \/ GSOther
+  \/ \E t \in {"complete", "input", "invalid", "err"}, R \in HandlerMaps, s \in BOOLEAN : GSInvoke(t, R, s)
+  \/ GSPost
+  \/ GSMw
+  \/ \E k \in Keys : GFBegin(k)
+  \/ \E k \in Keys, r \in {"ok", "fail"} : GFEnd(k, r)
+  \/ \E k \in Keys : GFSkip(k)
+  \/ \E k \in Keys : GFAbandon(k)
+  \/ \E k \in Keys : GOEnd(k)
+  \/ \E k \in Keys : GFLate(k)
+  \/ \E k \in Keys : GLBegin(k)
+  \/ \E k \in Keys : GLDrop(k)
+  \/ GFJoin
+  \/ GCPass
+  \/ GCFinal
+  \/ GCInput
+CoverSpec == CoverInit /\ [][CoverNext]_vars
+CoverInv == Ready => (Bounded /\ EchoExact /\ CliJustified /\ FinalOutcome /\ EndsForAReason /\ WireOK)
 
 \* reachability witnesses (each must be VIOLATED, otherwise the model is vacuous)
 NeverLimit     == ~(pc = "done" /\ outcome.code = "limit")
@@ -37,6 +94,8 @@ NeverBusy      == ~(pc = "done" /\ outcome.code = "busy")
 NeverRawInput  == ~(pc = "done" /\ outcome.t = "rawinput")
 NeverHybrid    == ~(mode = "old" /\ who = "client")
 NeverOrphan    == orphan = {}
+NeverLate      == late = {}
+NeverManual    == ~(manual = MaxManual /\ pc = "done" /\ outcome.t = "complete")
 NeverNeedsInput == ~(pc = "done" /\ outcome.t = "needsinput")
 NeverSecondRound == ~(mode = "new" /\ inv = 3 /\ pc = "done" /\ outcome.t = "complete")
 =============================================================================
